@@ -207,6 +207,10 @@ def guard_insert(ctx, prog):
         F = o.fn
         du = DefUse(F)
         r = _root_desc(origins(F, o.site.arg_place(1), du, extra_pass=q.NODE_IDENTITY + ("core::clone::Clone::clone",)))
+        if o.method.endswith("::extend"):
+            from .c01 import _extends_with_all_parents
+            if _extends_with_all_parents(prog, F, o.site, du):
+                r = "arg1.parents"      # stack.extend(parents.iter().filter_map(upgrade).map(weak))
         ctx.site(R, F, "bb%d push(%s) on propagate_invalidity" % (o.bb, r))
         if allowed.get(F.path) == r:
             ctx.ok(R, "producer:" + F.short)
@@ -359,4 +363,15 @@ def guard_transitions(ctx, prog):
 
 guard_transitions.rule_id = "C05.GUARD-transitions"
 
-RULES = [wmc_user, guard_insert, pdom_release, bracket, guard_transitions]
+def guard_sentinel(ctx, prog):
+    """Dropping the last handle must always disallow the observer, otherwise its cone stays necessary and keeps
+    being computed with no live observer: the last-handle test counts handles only (the sentinel), not strong
+    references to the internal observer, which the engine also takes transiently. Same rule as C10.GUARD-sentinel."""
+    from .engine import run_relabelled
+    from .c10 import guard_sentinel as f
+    run_relabelled(ctx, prog, f, "C10.GUARD-sentinel", "C05.GUARD-sentinel")
+
+
+guard_sentinel.rule_id = "C05.GUARD-sentinel"
+
+RULES = [wmc_user, guard_insert, pdom_release, bracket, guard_transitions, guard_sentinel]
